@@ -527,7 +527,7 @@ func (dp *DataProcessor) applyDistinct(results []map[string]any) []map[string]an
 // applyHavingFilter applies HAVING filter
 func (dp *DataProcessor) applyHavingFilter(results []map[string]any) []map[string]any {
 	// Check if HAVING condition contains CASE expression
-	hasCaseExpression := strings.Contains(strings.ToUpper(dp.stream.config.Having), SQLKeywordCase)
+	hasCaseExpression := containsKeyword(dp.stream.config.Having, SQLKeywordCase)
 
 	var filteredResults []map[string]any
 
@@ -538,6 +538,41 @@ func (dp *DataProcessor) applyHavingFilter(results []map[string]any) []map[strin
 	}
 
 	return filteredResults
+}
+
+// containsKeyword reports whether text contains keyword (any letter case) as a
+// word of its own, outside string literals and back-quoted identifiers. A column
+// or alias that merely contains the letters (case_n, lowercase, `case`) or a
+// literal such as 'case' is not the keyword.
+func containsKeyword(text, keyword string) bool {
+	isWordChar := func(c byte) bool {
+		return c == '_' || c == '.' || c >= 0x80 || (c >= '0' && c <= '9') || (c >= 'a' && c <= 'z') || (c >= 'A' && c <= 'Z')
+	}
+	for i := 0; i < len(text); {
+		c := text[i]
+		if c == '\'' || c == '"' || c == '`' {
+			// Skip the quoted text
+			i++
+			for i < len(text) && text[i] != c {
+				i++
+			}
+			i++
+			continue
+		}
+		if !isWordChar(c) {
+			i++
+			continue
+		}
+		j := i
+		for j < len(text) && isWordChar(text[j]) {
+			j++
+		}
+		if strings.EqualFold(text[i:j], keyword) {
+			return true
+		}
+		i = j
+	}
+	return false
 }
 
 // applyHavingWithCaseExpression applies HAVING filter using CASE expression
@@ -573,10 +608,15 @@ func (dp *DataProcessor) applyHavingWithCaseExpression(results []map[string]any)
 			continue
 		}
 
+		// A boolean result decides by itself: a false predicate rejects the group
 		// For numeric results, greater than 0 is considered true (satisfies HAVING condition)
 		// For string results, non-empty is considered true
 		if havingResult != nil {
-			if numResult, ok := havingResult.(float64); ok {
+			if boolResult, ok := havingResult.(bool); ok {
+				if boolResult {
+					filteredResults = append(filteredResults, result)
+				}
+			} else if numResult, ok := havingResult.(float64); ok {
 				if numResult > 0 {
 					filteredResults = append(filteredResults, result)
 				}
